@@ -9,6 +9,8 @@
 //   P r c a           r := Buchstabe c verkettet a             (copy a; ddp_char_string_verkettet)
 //   X r a i j         r := a im Bereich von i bis j            (ddp_string_slice)
 //   T r c             r := c als Text                          (ddp_char_to_string)
+//   M r               r := the empty Text that owns a buffer, {"\0", 1}, as the C producers of the stdlib
+//                     return it (env.c, string_builder.c, filesystem.c, strings.c: cap = strlen + 1)
 //   R r c i           r an der Stelle i ist c                  (ddp_replace_char_in_string)
 //   I a i             a an der Stelle i                        (ddp_string_index)
 //   N a               Länge von a                              (ddp_string_length)
@@ -26,6 +28,7 @@
 // With argument "fork" every history runs in a child process; a child that dies prints "!exit n" / "!sig n".
 // With argument "flush" stdout is flushed after every line (the caller restarts after a sanitizer abort).
 #define _GNU_SOURCE
+#include "DDP/ddpmemory.h"
 #include "DDP/ddptypes.h"
 #include "DDP/utf8/utf8.h"
 #include <locale.h>
@@ -137,6 +140,13 @@ static int do_op(char *line) {
 	case 'T':
 		sscanf(line + 1, "%lld %lld", &a, &c);
 		ddp_char_to_string(&ret, (ddpchar)c);
+		setreg(a, ret); show(&reg[a]);
+		break;
+	case 'M':
+		sscanf(line + 1, "%lld", &a);
+		ret.cap = 1;
+		ret.str = ddp_reallocate(NULL, 0, 1);
+		ret.str[0] = '\0';
 		setreg(a, ret); show(&reg[a]);
 		break;
 	case 'R':
